@@ -28,6 +28,7 @@ from .peg import Grammar
 
 class PNode(Abstract):
     __slots__ = ("expr_name", "full_text", "start", "end", "children", "kind")
+    _isa_ = frozenset({"Node"})  # what `isinstance(x, K)` in evaluated code may be told: a parse-tree node, nothing of the package
 
     def __init__(self, expr_name: str, full_text: str, start: int, end: int, children: List["PNode"], kind: str):
         self.expr_name, self.full_text, self.start, self.end, self.children, self.kind = expr_name, full_text, start, end, children, kind
